@@ -252,6 +252,57 @@ func buildInlinedView1(repoDir, goarch string, orig *Program) (*Program, []strin
 			}
 			overlay[fname] = nb
 		}
+		// `(*T).m(x, args)` - a method expression the inliner substituted for a func-typed
+		// parameter - is the method call `x.m(args)`; go/ssa would call a synthetic thunk instead
+		var mexEdits = map[string][]textEdit{}
+		for _, pk := range p.Pkgs {
+			for _, file := range pk.Syntax {
+				fname := p.Fset.Position(file.Pos()).Filename
+				if _, inOverlay := overlay[fname]; !inOverlay {
+					continue
+				}
+				ast.Inspect(file, func(n ast.Node) bool {
+					ce, ok := n.(*ast.CallExpr)
+					if !ok || len(ce.Args) == 0 || ce.Ellipsis.IsValid() {
+						return true
+					}
+					se, ok := ast.Unparen(ce.Fun).(*ast.SelectorExpr)
+					if !ok {
+						return true
+					}
+					sel := pk.TypesInfo.Selections[se]
+					if sel == nil || sel.Kind() != types.MethodExpr || len(sel.Index()) != 1 {
+						return true
+					}
+					switch ast.Unparen(ce.Args[0]).(type) {
+					case *ast.Ident, *ast.SelectorExpr:
+					default:
+						return true
+					}
+					if !types.Identical(pk.TypesInfo.TypeOf(ce.Args[0]), sel.Recv()) {
+						return true
+					}
+					off := func(q token.Pos) int { return p.Fset.Position(q).Offset }
+					// Fun + "(" + first argument (+ ", ") -> "x.m("
+					to := off(ce.Args[0].End())
+					if len(ce.Args) > 1 {
+						to = off(ce.Args[1].Pos())
+					}
+					b, err := fileContent(fname, overlay)
+					if err != nil {
+						return true
+					}
+					recv := string(b[off(ce.Args[0].Pos()):off(ce.Args[0].End())])
+					mexEdits[fname] = append(mexEdits[fname], textEdit{off(ce.Fun.Pos()), to, recv + "." + se.Sel.Name + "("})
+					return true
+				})
+			}
+		}
+		for fname, es := range mexEdits {
+			if b, err := fileContent(fname, overlay); err == nil {
+				overlay[fname] = applyEdits(append([]byte(nil), b...), es)
+			}
+		}
 	}
 	// turn the immediately-invoked literals the inliner fell back to into straight-line code
 	plain := map[string][]byte{}
